@@ -28,7 +28,7 @@ import tdgen
 
 THEOREMS = ["C05_block_scopes_end", "C05_locals_do_not_leak", "C05_out_of_scope_partial", "C05_unresolved_reported",
             "C05_resolution_values_partial", "C05_resolution_blocks_partial", "C05_goto_newest_entry",
-            "C05_reference_logged", "C05_declarations_stable", "C05_resolution_partial", "C05_resolution_workspace_partial"]
+            "C05_reference_logged", "C05_declarations_stable", "C05_resolution_partial", "C05_resolution_workspace_partial", "C05_field_lookup_visited_set", "C05_subclass_visited_set"]
 TRUSTED = [
     "Coq 8.16.1 kernel (coqc; vm_compute only in the non-vacuity Examples); no axioms",
     "statement of the declarative resolver coq/model/ScopeSpec.v (read against the TableGen scoping rules; "
@@ -39,8 +39,16 @@ TRUSTED = [
     "modelled contracts: id_arena (ids = allocation order), HashMap (finite map), indexmap::IndexMap (insertion "
     "order, re-insert keeps position), iset::IntervalMap (insert replaces on an equal interval, "
     "values_overlap in (start,end) order), rowan text ranges as produced by the real parser",
-    "bridge harness/src/bin/coreast.rs (real tree -> CoreAst through the real typed accessors), observer "
-    "harness/src/bin/idedump.rs, Coq extraction (ExtrOcamlBasic only), OCaml driver coq/extract/scope_driver.ml",
+    "the CoreAst the model runs on is computed INSIDE Coq from the texts (group bridge: model lexer/parser over the "
+    "generated tables, coq/model/AstToCore.v through the generated accessor table coq/gen/GenAst.v, coq/model/Pipeline.v "
+    "include resolution; extracted unit `bridge`; theorems coq/props/Bridge.v) and is required, on EVERY workspace of "
+    "the run, to be character for character what the observer harness/src/bin/coreast.rs reads off the REAL parse tree "
+    "through the real typed accessors (a difference or a bridge unit that does not build is a broken tie): coreast.rs "
+    "is therefore a cross-check, not part of the trusted base for Core programs; trusted instead: the translators "
+    "tools/translate/{t_tokens,t_lextables,t_unicode,t_lexer,t_grammar,t_ast}.py (re-run by this check; tied to the "
+    "code by C01/C02/C04/C15), the hand models of the 8 hand-written ast.rs methods in AstToCore.v, "
+    "coq/extract/bridge_driver.ml",
+    "observer harness/src/bin/idedump.rs, Coq extraction (ExtrOcamlBasic only), OCaml driver coq/extract/scope_driver.ml",
     "generator lib/tdgen.py (its own scope tracking is the oracle), this Python driver",
 ]
 BINS = ["coreast", "idedump"]
@@ -69,7 +77,7 @@ def gen_batch(ctx, n, probe_every=3):
 
 def observe(bindir, exe, wss):
     I = sl.impl(bindir, wss)
-    C = sl.core(bindir, wss)
+    C = sl.core_checked(bindir, wss, [])
     M = sl.model(exe, C, wss)
     return I, C, M
 
@@ -140,7 +148,7 @@ def shrink(bindir, prog_ws, still_fails, budget_s=30):
 def run(ctx):
     t0 = time.time()
     bindir = vlib.build_harness(False, bins=BINS)
-    fails = vlib.proof_step(ctx, "TG.Props.C05", THEOREMS, ["props/C05.vo"], TRUSTED, translators=[])
+    fails = vlib.proof_step(ctx, "TG.Props.C05", THEOREMS, ["props/C05.vo"], TRUSTED, translators=sl.BRIDGE_TRANSLATORS)
     try:
         exe = vlib.build_model("scope")
     except vlib.BuildError as ex:
@@ -150,10 +158,11 @@ def run(ctx):
     progs = gen_batch(ctx, n)
     wss = [p.workspace() for p in progs]
     I, C, M = [], [], []
+    bridge_stats = {}
     for chunk in vlib.chunked(list(range(len(wss))), 100):
         sub = [wss[k] for k in chunk]
         i = sl.impl(bindir, sub)
-        c = sl.core(bindir, sub)
+        c = sl.core_checked(bindir, sub, fails, bridge_stats)
         m = sl.model(exe, c, sub) if exe else [None] * len(sub)
         I += i
         C += c
@@ -243,6 +252,7 @@ def run(ctx):
                 spec_stats["spec_vs_model"] += 1
                 fails.append({"kind": "spec-vs-model", "file": "coq/model/ScopeSpec.v vs coq/model/Indexer.v", "workspace": w})
     ctx.cov["scope_spec"] = spec_stats
+    ctx.cov["core_ast_from_texts_inside_coq"] = bridge_stats
     if broken_corr:
         fails.append({"kind": "correspondence", "file": "model Indexer.v vs crates/ide/src/index.rs",
                       "disagreements": broken_corr[:3]})
